@@ -23,6 +23,7 @@ Thread == /\ IsEv("thread") /\ UNCHANGED <<tix, ncs>>
           /\ E.digest = E.alone                         \* same results as when it runs alone
           /\ E.ended < E.joined                         \* join returned after the function had finished
           /\ E.seen = E.cell                            \* ... and its effects were visible to the joiner
+          /\ E.rootres = 1                             \* a result the thread rooted and left behind is intact after join (not finalised by the thread's teardown); released by the joiner, once
           /\ E.handoff = 1                              \* what the parent put into the thread's storage before the start was there, intact
           /\ E.withbad = 0                             \* with (m in <expression>): the Mutex that was acquired is held inside the block and released at its end, no other
           /\ E.liveatjoin = 0                           \* ... including its teardown: everything it still managed is finalised
